@@ -8,10 +8,18 @@ import GoNeat.Driver.Experiment
 import GoNeat.Driver.Stats
 import GoNeat.Driver.Depth
 import GoNeat.Driver.Genesis
+import GoNeat.Driver.Parallel
 
 namespace GoNeat.Driver
 def allOps : List (String × Handler) :=
-  geneticsOps ++ operatorOps ++ populationOps ++ activationsOps ++ solverOps
-  ++ experimentOps ++ statsOps
-  ++ depthOps ++ genesisOps
+  geneticsOps
+  ++ operatorOps
+  ++ populationOps
+  ++ activationsOps
+  ++ solverOps
+  ++ experimentOps
+  ++ statsOps
+  ++ depthOps
+  ++ genesisOps
+  ++ parallelOps
 end GoNeat.Driver
